@@ -91,6 +91,31 @@ Theorem C02_blocks_reencode : forall tbs buf bd rest,
 Proof. exact pack_parse_blocks. Qed.
 Print Assumptions C02_blocks_reencode.
 
+(* "In every case the re-encoding decodes to the same message" (C02_same_message of the design):
+     forall d b m m', parse_header d b = Some m -> parse_body d m = Some m' ->
+       exists b', serialize d m' = Some b' /\ deserialize d b' = Some m'
+   is FALSE of the code and no positive version is proved here (the harness checks the clause on every
+   generated datagram).  Witness: a zero-coded ChatFromViewer whose body is 12038 bytes followed by the
+   wrap form 00 00 at the very end (= 257 zeros, 12295 > ZC_CAP = 12288 in the last chunk only): it is
+   accepted and parsed, its canonical re-encoding (.. 00 ff 00 02) is refused by the decoder's cap. *)
+Definition cap_datagram : list N :=
+  [128;0;0;0;1;0; 255;255;0;1;80] ++ repeat 17 32 ++ [220;47] ++ repeat 65 (N.to_nat 12000) ++ [0;0].
+
+Definition reencode (d : dict) (b : list N) : option (list N) :=
+  match parse_header d b with
+  | Some m => match parse_body d m with Some m' => serialize d m' | None => None end
+  | None => None
+  end.
+
+Theorem C02_same_message_refuted : exists b b',
+  (exists m, deserialize current_dict b = Some m) /\
+  reencode current_dict b = Some b' /\ deserialize current_dict b' = None.
+Proof.
+  exists cap_datagram. eexists. split; [eexists; vm_compute; reflexivity|].
+  split; [vm_compute; reflexivity|]. vm_compute; reflexivity.
+Qed.
+Print Assumptions C02_same_message_refuted.
+
 (* ---------- non-vacuity / necessity of the hypotheses ---------- *)
 
 (* a zero-coded ChatFromViewer with text "hi\0", canonical coding: parsed pass-through applies *)
